@@ -368,7 +368,7 @@ func forgedRequests(L int, pattern []int, seed uint64) {
 	lies := []struct {
 		name string
 		idx  int
-	}{{"none", 0}, {"rcm", 0}}
+	}{{"none", 0}, {"rcm", 0}, {"sim", 0}}
 	for i := 0; i <= L; i++ {
 		lies = append(lies, struct {
 			name string
@@ -407,6 +407,24 @@ func forgedRequests(L int, pattern []int, seed uint64) {
 				rcmProof = zrPlus(rcm)
 			}
 			v := ps.VerifPSProveBlinding(curve, msg, r, a, b, rcmProof, P.G, P.G0, h, u, cm, P.Gs)
+			if lie.name == "sim" {
+				// a simulated proof (no witness used): responses first, commitments solved for the guessed challenge 1;
+				// it verifies only if the verifier's challenge is 1
+				n := len(msg)
+				v.X, v.Y, v.D, v.F = make([]*math.Zr, n), make([]*math.Zr, n), make([]*math.G1, n), make([]*math.G1, n)
+				v.Z = curve.NewRandomZr(nil)
+				v.S = P.G0.Mul(v.Z)
+				for i := 0; i < n; i++ {
+					v.X[i], v.Y[i] = curve.NewRandomZr(nil), curve.NewRandomZr(nil)
+					v.D[i] = u.Mul(v.X[i])
+					v.D[i].Add(h.Mul(v.Y[i]))
+					v.D[i].Sub(b[i])
+					v.F[i] = P.G.Mul(v.X[i])
+					v.F[i].Sub(a[i])
+					v.S.Add(P.Gs[i].Mul(v.Y[i]))
+				}
+				v.S.Sub(cm)
+			}
 			v.CM, v.MPrime, v.U, v.A, v.B = oldCM, mPrime, u, a, b
 			bs = v.BlindSignature()
 			return nil
